@@ -51,8 +51,11 @@ def idxOf (pool : Pool) (h : Hdr) : String :=
 structure Run where
   sent : List String := []
   tos : List String := []
+  tfs : List String := []
   rs : List String := []
-  answered : List Nat := []
+  answered : List (Nat × String) := []
+
+def flagOf (p : Peer) : String := (if p.connected then "c" else "d") ++ (if p.trusted then "t" else "u")
 
 /-- pad / cut the listed answers to the number of requests sent (missing = failure) -/
 def fit (k : Nat) (as : List Ans) : List Ans := (as ++ List.replicate k Ans.other).take k
@@ -68,21 +71,26 @@ def runOp (pool : Pool) (peers : List Peer) (callers closedN late : Nat) (rounds
     | as :: rest =>
       let (s1, outs) := step MAX_PEERS s closed (.schedule peers)
       let to := outs.filterMap (fun o => match o with | .sent t => some t | _ => none) |>.flatten
+      let tf := to.filterMap (fun i => (peers.find? (fun p => p.id == i)).map flagOf)
+      let tfStr := if tf.isEmpty then "-" else ".".intercalate tf
       let s2 := if first then (List.range late).foldl (fun s c => (step MAX_PEERS s closed (.call (callers + c))).1) s1 else s1
       let toStr := if eligible > 10 then "*" else showNatList to
       if to.isEmpty then
-        go s2 rest false { acc with sent := acc.sent ++ ["0"], tos := acc.tos ++ [toStr], rs := acc.rs ++ ["none"] }
+        go s2 rest false { acc with sent := acc.sent ++ ["0"], tos := acc.tos ++ [toStr], tfs := acc.tfs ++ [tfStr], rs := acc.rs ++ ["none"] }
       else
         let (s3, outs2) := step MAX_PEERS s2 closed (.done (fit to.length as))
         let ans := outs2.filterMap (fun o => match o with | .answer c h => some (c, h) | _ => none)
         let r := match ans.head? with
           | some (_, h) => idxOf pool h
           | none => "none"
-        go s3 rest false { sent := acc.sent ++ [toString to.length], tos := acc.tos ++ [toStr], rs := acc.rs ++ [r],
-                           answered := acc.answered ++ (ans.map (·.1)).filter (fun c => !closed.contains c) }
+        go s3 rest false { sent := acc.sent ++ [toString to.length], tos := acc.tos ++ [toStr], tfs := acc.tfs ++ [tfStr],
+                           rs := acc.rs ++ [r],
+                           answered := acc.answered ++
+                             ((ans.filter (fun a => !closed.contains a.1)).map (fun a => (a.1, idxOf pool a.2))) }
   let run := go s0 rounds true {}
   let live := callers - closedN + (if rounds.isEmpty then 0 else late)
-  s!"sent={"/".intercalate run.sent} to={"/".intercalate run.tos} bad=0 r={"/".intercalate run.rs} got={run.answered.length} of={live} other=0"
+  let ansStr := if run.answered.isEmpty then "-" else ",".intercalate (run.answered.map (fun a => s!"{a.1}:{a.2}"))
+  s!"sent={"/".intercalate run.sent} to={"/".intercalate run.tos} tf={"/".intercalate run.tfs} bad=0 dup=0 r={"/".intercalate run.rs} ans={ansStr} of={live}"
 
 def step (pool : Pool) (line : String) : Pool × String :=
   let ws := words line
@@ -113,17 +121,25 @@ def spec (pool : Pool) (op : String) (obs : String) : String :=
   | "head" :: _ =>
     if os == ["panic"] then "specfail C31/panic the client handler panicked" else
     match (arg? ws "peers").bind parsePeers, natArg? ws "callers", natArg? ws "closed", natArg? ws "late", arg? ws "rounds",
-          arg? os "sent", arg? os "to", natArg? os "bad", arg? os "r", natArg? os "got", natArg? os "of", natArg? os "other" with
+          arg? os "sent", arg? os "to", arg? os "tf", natArg? os "bad", natArg? os "dup", arg? os "r", arg? os "ans", natArg? os "of" with
     | some peers, some callers, some closedN, some late, some rounds,
-      some sent, some to, some bad, some r, some got, some live, some other =>
+      some sent, some to, some tf, some bad, some dup, some r, some ansS, some live =>
       let rds := parseRounds pool rounds
       let sents := (sent.splitOn "/").filterMap String.toNat?
       let tos := to.splitOn "/"
+      let tfs := tf.splitOn "/"
       let rs := r.splitOn "/"
       let infos : List PeerInfo := peers.map (fun p => { id := p.id, connected := p.connected, trusted := p.trusted })
       -- recipients of every round
-      let recipOk := bad == 0 && (tos.zip sents).all (fun (t, k) =>
-        if t == "*" then decide (k ≤ 10)
+      -- `tf` = the connected/trusted flags of the real recipients: every one must be a connected trusted peer
+      let flagsOk := (tfs.zip sents).all (fun (f, k) =>
+        let fl := if f == "-" then [] else f.splitOn "."
+        fl.all (· == "ct") && fl.length == k)
+      let recipOk := bad == 0 && dup == 0 && flagsOk && tos.length == sents.length && tfs.length == sents.length &&
+        (tos.zip sents).all (fun (t, k) =>
+        if t == "*" then
+          -- more than 10 eligible peers: which ten are asked is HashMap order; exactly 10 must be asked
+          decide (k ≤ 10) && (k == 0 || k == 10)
         else match (if t == "-" then some [] else (t.splitOn ",").mapM String.toNat?) with
           | some l => (l.isEmpty || specRecipients infos l) && l.length == k
           | none => false)
@@ -152,14 +168,35 @@ def spec (pool : Pool) (op : String) (obs : String) : String :=
       match check rds sents rs false with
       | some fp => s!"specfail {fp} the resolved head is not the one the best-head rule prescribes"
       | none =>
-        let answeredAny := rs.any (· != "none")
+        -- fan-out: every caller waiting when the head was resolved received exactly that head, once
         let expectLive := callers - closedN + (if rds.isEmpty then 0 else late)
-        if other != 0 then "specfail C31/fanout-different-answer a waiting caller received something other than the chosen head"
-        else if live != expectLive then "specfail C31/unparsed"
-        else if answeredAny && got != live then "specfail C31/fanout-missed-caller not every waiting caller received the head"
-        else if !answeredAny && got != 0 then "specfail C31/fanout-different-answer a caller was answered without a head"
-        else "specok"
-    | _, _, _, _, _, _, _, _, _, _, _, _ => "specfail C31/unparsed"
+        let waiting : List Nat := (List.range callers).filter (fun c => decide (closedN ≤ c)) ++
+          (if rds.isEmpty then [] else (List.range late).map (· + callers))
+        let dummy : Lumina.Spec.C31.Hdr := { height := 0, hash := [] }
+        let answers? : Option (List (Nat × Lumina.Spec.C31.Hdr)) :=
+          if ansS == "-" then some []
+          else (ansS.splitOn ",").mapM (fun a => match a.splitOn ":" with
+            | [c, v] => (String.toNat? c).map (fun c =>
+                (c, match (String.toNat? v).bind (fun i => pool.lookup i) with | some h => specHdr h | none => dummy))
+            | _ => none)
+        let head? : Option Lumina.Spec.C31.Hdr :=
+          match rs.find? (· != "none") with
+          | some v => ((String.toNat? v).bind (fun i => pool.lookup i)).map specHdr
+          | none => none
+        match answers? with
+        | none => "specfail C31/unparsed"
+        | some answers =>
+          if live != expectLive then "specfail C31/unparsed"
+          else match head? with
+            | some h =>
+              if specFanout waiting h answers then "specok"
+              else if answers.any (fun a => a.2 != h) then
+                "specfail C31/fanout-different-answer a waiting caller received something other than the chosen head"
+              else "specfail C31/fanout-missed-caller the callers answered are not exactly the waiting callers, each once"
+            | none =>
+              if answers.isEmpty then "specok"
+              else "specfail C31/fanout-different-answer a caller was answered although no head was resolved"
+    | _, _, _, _, _, _, _, _, _, _, _, _, _ => "specfail C31/unparsed"
   | _ => "specskip"
 
 def handler : Driver.Handler Pool := { init := [], step := step, spec := spec }
